@@ -33,6 +33,23 @@ def _relabel(l):
     return tuple((x[1] if isinstance(x, tuple) and len(x) == 2 and isinstance(x[0], str) else x) for x in l)
 
 
+def _relabel_by_name(l):
+    return tuple((x[0] if isinstance(x, tuple) and len(x) == 2 and isinstance(x[0], str) else x) for x in l)
+
+
+def _ctx_grammar(F, entry):
+    """Grammar of a correction stream with the context of every operation named two ways.  A context (CodecCorrection /
+    CodecMisprediction variant) is only an index into arrays of identically initialised adaptive states, so neither its number
+    nor its name is stored: permuting the variants, or renaming them, leaves every stored stream decodable.  The grammar
+    therefore counts as unchanged when it is unchanged under EITHER labelling (a pure reorder keeps the names, a pure rename
+    keeps the numbers); merging, splitting or re-assigning contexts changes both."""
+    W = proto.Machine(F, alpha.CorrectionStream("w"), "w")
+    by_discr = _dfa(W, entry, _relabel)
+    W = proto.Machine(F, alpha.CorrectionStream("w"), "w")
+    by_name = _dfa(W, entry, _relabel_by_name)
+    return {"by_discr": by_discr, "by_name": by_name}
+
+
 def _dfa(M, entry, relabel=lambda l: l):
     n, tr, acc = lts.explore(M, entry, relabel)
     rows = lts.canonical_dfa(n, tr, acc)
@@ -85,10 +102,8 @@ def compute_surface(F):
     # ---- grammars ----------------------------------------------------------------------------------
     W = proto.Machine(F, alpha.Container("w", c01.WSCOPE, F), "w")
     S["container"]["grammar:container"] = _dfa(W, PC + "expand_zlib_chunks")
-    W2 = proto.Machine(F, alpha.CorrectionStream("w"), "w")
-    S["stream"]["grammar:correction-stream"] = _dfa(W2, PC + "decompress_deflate_stream", _relabel)
-    W3 = proto.Machine(F, alpha.CorrectionStream("w"), "w")
-    S["stream"]["grammar:parameter-header"] = _dfa(W3, PP + "PreflateParameters::write", _relabel)
+    S["stream"]["grammar:correction-stream"] = _ctx_grammar(F, PC + "decompress_deflate_stream")
+    S["stream"]["grammar:parameter-header"] = _ctx_grammar(F, PP + "PreflateParameters::write")
     # ---- enum discriminants ------------------------------------------------------------------------
     for en in ("statistical_codec::CodecCorrection", "statistical_codec::CodecMisprediction", "preflate_parameter_estimator::PreflateStrategy",
                "preflate_parameter_estimator::PreflateHuffStrategy", "preflate_token::BlockType", "huffman_encoding::TreeCodeType"):
@@ -469,6 +484,8 @@ def run(ctx, rep):
                 rep.add(rule, "UNRECOGNISED-IDIOM:" + k, False, "", cv)
                 continue
             same = rv == cv
+            if isinstance(rv, dict) and isinstance(cv, dict) and set(rv) == set(cv) == {"by_discr", "by_name"}:
+                same = rv["by_discr"] == cv["by_discr"] or rv["by_name"] == cv["by_name"]
             if k in ("scalars", "tables", "opaque-constants") and isinstance(rv, dict) and isinstance(cv, dict):
                 # compared by value only; the names are carried along for the report
                 same = sorted(rv) == sorted(cv)
